@@ -397,6 +397,11 @@ impl WorkerTree {
 
             for node_index in remove_nodes {
                 if let Some(work_item) = self.graph.remove_node(node_index) {
+                    for dependency in work_item.external_file_dependencies.iter() {
+                        if let Some(container) = self.external_dependencies.get_mut(dependency) {
+                            container.remove(&node_index);
+                        }
+                    }
                     if !work_item.data.is_in_place() {
                         self.remove_files
                             .push(work_item.data.output().to_path_buf());
